@@ -272,6 +272,23 @@ def flags_for(params):
     return argv
 
 
+def spell_source(source, workdir):
+    """The same source as the user might type it on the command line."""
+    how = ENV.get("source_spelling")
+    if not how or "://" in source:
+        return source
+    rel = os.path.relpath(source, workdir)
+    if how == "rel":
+        return rel
+    if how == "dot":
+        return os.path.join(".", rel)
+    if how == "slash":
+        return source + "/" if os.path.isdir(source) else source
+    if how == "dotdot":
+        return os.path.join(os.path.dirname(source), "..", os.path.basename(os.path.dirname(source)), os.path.basename(source))
+    return source
+
+
 def write_config(path, params):
     cfg = GeneratorConfig.create() if params.get("create") else GeneratorConfig()
     apply_params(cfg, params)
@@ -287,6 +304,23 @@ def write_config(path, params):
         if n:
             with open(path, "w", encoding="utf-8") as fp:
                 fp.write(text)
+    edits = ENV.get("config_text") or []
+    if edits:
+        # the same project file as another editor or tool would have saved it
+        with open(path, "rb") as fp:
+            raw = fp.read()
+        if "bool10" in edits:
+            raw = raw.replace(b">true<", b">1<").replace(b">false<", b">0<").replace(b'="true"', b'="1"').replace(b'="false"', b'="0"')
+        if "comment" in edits:
+            raw = raw.replace(b"<Output", b"<!-- edited by hand -->\n  <Output", 1).replace(b"</Config>", b"  <!-- end -->\n</Config>\n<!-- trailing -->", 1)
+        if "nodecl" in edits and raw.startswith(b"<?xml"):
+            raw = raw[raw.index(b"?>") + 2 :].lstrip()
+        if "crlf" in edits:
+            raw = raw.replace(b"\r\n", b"\n").replace(b"\n", b"\r\n")
+        if "bom" in edits:
+            raw = b"\xef\xbb\xbf" + raw
+        with open(path, "wb") as fp:
+            fp.write(raw)
 
 
 def generate(source, recursive, params, route, cache, workdir):
@@ -316,7 +350,7 @@ def generate(source, recursive, params, route, cache, workdir):
         else:
             from xsdata import cli
 
-            argv = ["generate", source]
+            argv = ["generate", spell_source(source, workdir)]
             if recursive:
                 argv.append("-r")
             if cache:
